@@ -37,6 +37,7 @@ func init() {
 		},
 		Run: runC10,
 		Controls: []core.Control{
+			{Name: "compiler-overflow-path-skips-close", File: "internal/engine/wazevo/call_engine.go", Old: "\t\t\t\t// As after a panic: an asynchronous close is completed by this call, whichever way it ends.\n\t\t\t\t_ = c.parent.module.FailIfClosed()\n", New: "", Rule: "R10.8", Substr: "stack overflow"},
 			{Name: "compiled-module-insert-unguarded", File: "internal/engine/wazevo/engine_cache.go", Old: "\tif e.compiledModules == nil { // Close was called, possibly while this module was being compiled.\n\t\treturn errors.New(\"engine is already closed\")\n\t}\n", New: "\t_ = errors.New\n", Rule: "R10.7", Substr: "compiledModules"},
 			{Name: "compiler-panic-path-skips-close", File: "internal/engine/wazevo/call_engine.go", Old: "\t\t\t_ = c.parent.module.FailIfClosed()\n", New: "", Rule: "R10.8", Substr: "compiler"},
 			{Name: "head-moved-for-unlinked-instance", File: "internal/wasm/store_module_list.go", Old: "\tif m.prev != nil {\n\t\tm.prev.next = m.next\n\t}\n\tif m.next != nil {\n\t\tm.next.prev = m.prev\n\t}\n\tif s.moduleList == m {\n\t\ts.moduleList = m.next\n\t}\n", New: "\tif m.prev != nil {\n\t\tm.prev.next = m.next\n\t} else {\n\t\ts.moduleList = m.next\n\t}\n\tif m.next != nil {\n\t\tm.next.prev = m.prev\n\t}\n", Rule: "R10.6", Substr: "list head"},
@@ -1138,6 +1139,43 @@ func checkExitPathCompletesClose(c *core.Ctx) {
 						before = true
 					}
 				}
+				// … and where the exit path singles out the stack-overflow error (reported by a plain return on the compiler),
+				// that branch completes the close too
+				ast.Inspect(fl.Body, func(x ast.Node) bool {
+					is, ok := x.(*ast.IfStmt)
+					if !ok {
+						return true
+					}
+					be, ok := ast.Unparen(is.Cond).(*ast.BinaryExpr)
+					if !ok || (be.Op != token.NEQ && be.Op != token.EQL) || !strings.Contains(core.ExprStr(be), "ErrRuntimeStackOverflow") {
+						return true
+					}
+					var branch ast.Node = is.Body
+					if be.Op == token.NEQ {
+						branch = is.Else
+					}
+					okb := before
+					if branch != nil {
+						okb = okb || calls(branch)
+						// one-level helper
+						ast.Inspect(branch, func(y ast.Node) bool {
+							if call, ok := y.(*ast.CallExpr); ok {
+								if f := core.Callee(info, call); f != nil {
+									core.AllFuncDecls(p, func(g *ast.FuncDecl) {
+										if info.Defs[g.Name] == types.Object(f) && g != fd && calls(g.Body) {
+											okb = true
+										}
+									})
+								}
+							}
+							return true
+						})
+					}
+					c.Check(okb, "R10.8", e.name+": the exit path of "+fd.Name.Name+" completes a pending close also when the call ended in stack overflow", is.Pos(),
+						"FailIfClosed is called in the stack-overflow branch",
+						"the stack-overflow branch of the exit path does not call FailIfClosed: a module closed asynchronously in the middle of an unbounded recursion stays half closed (no close notification, file system and code closer not released)")
+					return true
+				})
 				c.Check(before || calls(test.Body), "R10.8", e.name+": the exit path of "+fd.Name.Name+" completes a pending close also when the call ended in a panic", test.Pos(),
 					"FailIfClosed is called before the recovered value is tested, or in the branch handling it",
 					"FailIfClosed is only called when the call returned normally: a module closed asynchronously (close on context done) while its call in flight ends in a trap or host panic keeps the 'resources not closed' state for ever – no close notification, file system and allocator memory never released, Close is a no-op")
